@@ -948,7 +948,8 @@ def call_entry(name, args, prm):
     except RecursionError:
         return ("raised", "RecursionError")
     except Exception as e:
-        return ("raised", type(e).__name__ + ":" + str(e)[:80])
+        # only the exception TYPE is compared between calls (messages may contain addresses)
+        return ("raised", type(e).__name__)
     return ("ok", canon_result(r))
 
 
